@@ -158,6 +158,9 @@ class Ctx:
                 new.append(v)
         rdir = os.path.join(ROOT, "replays", self.pid)
         os.makedirs(rdir, exist_ok=True)
+        for old in os.listdir(rdir):  # replays always describe the latest run only
+            if old.endswith(".json"):
+                os.unlink(os.path.join(rdir, old))
         for v in new:
             key = hashlib.sha1(v["signature"].encode()).hexdigest()[:12]
             path = os.path.join(rdir, f"{key}.json")
